@@ -2,6 +2,7 @@ import GwModel.Select
 import GwModel.StepVars
 import GwModel.Gen.Facts
 import GwModel.PlanConfined
+import GwModel.PlanVars
 /-! # C02 — Every outbound query is valid for, and confined to, its target service
 
 Proved on the model: (1) confinement — the location the chooser returns for a field is one of the services
@@ -51,6 +52,15 @@ theorem every_step_asks_only_what_its_service_offers {env : Pl.Env} {fuel : Nat}
     ∀ s ∈ steps, Pl.ConfSels env s.location s.parentType s.sel ∧
       ∀ f ∈ s.frags, Pl.ConfSels env s.location f.cond f.sub :=
   fun s hs => Pl.planOperation_confined h s hs
+
+/-- **Variables declared ⇐ used** (planner model `Pl`): every variable that occurs in an argument or directive
+    of a step's selection set, or of a fragment definition the step carries, is among the variable definitions
+    of the operation built for that step — for every document, routing table and fuel. -/
+theorem every_variable_a_step_uses_is_declared {env : Pl.Env} {fuel : Nat} {operation : String}
+    {sels : List Pl.Sel} {steps : List Pl.Step} (h : Pl.planOperation env fuel operation sels = .ok steps) :
+    ∀ s ∈ steps, (∀ v ∈ Pl.usedSels s.sel, v ∈ Pl.builtVars s) ∧
+      ∀ f ∈ s.frags, ∀ v ∈ Pl.usedSels f.sub, v ∈ Pl.builtVars s :=
+  fun s hs => Pl.planOperation_vars h s hs
 
 /-- non-vacuity of the plan theorem: `{ me { firstName lastName } }` with `lastName` served elsewhere plans
     into a root step and one dependent step, and the dependent step holds `lastName` only -/
